@@ -22,7 +22,7 @@ func init() {
 		"C10-handler-once (the unbind route's handler is invoked exactly once iff one is registered, with this request and writer), C10-silent (gldap writes no response on that path), C10-classify (UnbindMessage <-> unbindRouteOperation <-> APP[2]), C10-inflight-waited (the teardown waits for the handlers dispatched before the Unbind - requestsWg.Add happens before the go statement, Wait precedes Close: rules C08-paired / C08-sequence)."
 	Descriptions["C13"] = "C13-inline (StartTLS dispatch is a plain call in the read loop), C13-rawhandshake (tls.Server on a load of conn.netConn; initConn reached only when Handshake returned nil, with that very tls.Conn), " +
 		"C13-pair (initConn stores netConn, reader=bufio.NewReader(x), writer=bufio.NewWriter(x) for the same x under conn.mu; these fields are written nowhere else), " +
-		"C13-fresh-writer (c.writer is re-loaded in every loop iteration; c.reader at every ReadPacket), C13-no-bypass (no direct Read/Write on the socket, no tls.Conn.NetConn), C13-deadline (a deadline armed on the socket in mid-session is cleared for each direction it covered on every path to a success return). Does not decide crypto/tls behaviour."
+		"C13-fresh-writer (c.writer is re-loaded in every loop iteration; c.reader at every ReadPacket), C13-no-bypass (no direct Read/Write on the socket, no tls.Conn.NetConn), C13-answered (every response written is flushed by that Write on every kind of connection: rules C05-oneframe), C13-deadline (a deadline armed on the socket in mid-session is cleared for each direction it covered on every path to a success return). Does not decide crypto/tls behaviour."
 }
 
 // isHandlerInvoke: a dynamic call of a value of type HandlerFunc (or the
@@ -899,6 +899,24 @@ func checkC13(c *Ctx) {
 		}
 		c.checkLockRelease("C13-lockrelease", uniq, "the next read on the connection blocks for ever: no request inside the TLS tunnel is decoded")
 		R.Floor("C13-lockrelease", 2)
+	}
+	// ---- C13-answered: "requests inside the tunnel are ... answered exactly as on a plain connection": a response a
+	// handler writes is put on the stream and flushed by that very Write, whatever the connection is (rules
+	// C05-oneframe / C05-locked of the frame emitter; an emitter that holds frames back on some connections fails them)
+	if !c.Sub {
+		tmp := &Ctx{P: c.P, R: report.New("tmp"), Tier: c.Tier, Sub: true}
+		checkC05(tmp)
+		for _, o := range tmp.R.Obls {
+			if o.Rule == "C05-oneframe" {
+				switch o.Status {
+				case report.Discharged:
+					R.OK("C13-answered", o.Construct, o.Pos, o.Detail)
+				default:
+					R.Fail("C13-answered", o.Construct, o.Pos, o.Detail)
+				}
+			}
+		}
+		R.Floor("C13-answered", 2)
 	}
 	// ---- C13-no-bypass
 	c.checkSocketDiscipline("C13-no-bypass")
